@@ -57,6 +57,8 @@ pub fn request_lines(base: u64) -> Vec<CM> {
         CM::Subscribe(Subscribe { transaction_id: 911 + base, key: s("a/?"), unique: false, live_only: None }),
         CM::PSubscribe(PSubscribe { transaction_id: 912 + base, request_pattern: s("a/?"), unique: true, aggregate_events: None, live_only: Some(false) }),
         CM::PSubscribe(PSubscribe { transaction_id: 913 + base, request_pattern: s("a/#/b"), unique: false, aggregate_events: None, live_only: None }),
+        CM::Subscribe(Subscribe { transaction_id: 914 + base, key: s("a"), unique: false, live_only: Some(true) }),
+        CM::Unsubscribe(Unsubscribe { transaction_id: 914 + base }),
         CM::Unsubscribe(Unsubscribe { transaction_id: 910 + base }),
         CM::Unsubscribe(Unsubscribe { transaction_id: 912 + base }),
         CM::Unsubscribe(Unsubscribe { transaction_id: 999 }),
@@ -77,7 +79,7 @@ pub fn request_lines(base: u64) -> Vec<CM> {
 /// a reduced alphabet for the deeper exploration
 pub fn core_request_lines(base: u64) -> Vec<CM> {
     let all = request_lines(base);
-    let keep = [0usize, 2, 3, 6, 7, 9, 10, 13, 15, 17, 18, 21, 25, 29, 31, 32, 34, 36, 38, 41, 42, 44, 46, 47, 49, 50];
+    let keep = [0usize, 2, 3, 6, 7, 9, 10, 13, 15, 17, 18, 21, 25, 29, 31, 32, 34, 36, 38, 39, 40, 43, 44, 46, 48, 49, 51, 52];
     keep.iter().filter_map(|i| all.get(*i).cloned()).collect()
 }
 
